@@ -156,6 +156,33 @@ func (fv *FuncVerifier) libModel(st *State, full string, fn *types.Func, recv *V
 		tv := fv.havocVal(st, "tadd", t)
 		fv.assume(st, "(= (time.inst "+tv.T+") (+ (time.inst "+recv.T+") "+a[0].T+"))")
 		return []Val{tv}, true
+	case "encoding/binary.Write":
+		// token model: binary.Write(w, binary.BigEndian, x) with x of static type uint16 / uint32 appends a fixed-width
+		// big-endian number token (kinds 11 / 12); only when the token ghosts exist
+		if _, ok := st.ghost["ntok"]; ok && len(e.Args) == 3 {
+			ord := strings.ReplaceAll(fv.exprText(e.Args[1]), " ", "")
+			at := fv.typeOf(e.Args[2])
+			if ord == "binary.BigEndian" && at != nil && isInteger(at) {
+				if w, signed := intWidth(at); !signed && (w == 16 || w == 32) {
+					a := args()
+					fv.assumedLib("binary.Write(w, binary.BigEndian, x) for a uint16/uint32 x appends its 2/4 big-endian bytes (token BE16/BE32)")
+					n := st.ghost["ntok"].T
+					kind := "11"
+					if w == 32 {
+						kind = "12"
+					}
+					st.ghost["tokK"] = Val{T: "(store " + st.ghost["tokK"].T + " " + n + " " + kind + ")", Sort: "(Array Int Int)"}
+					st.ghost["tokN"] = Val{T: "(store " + st.ghost["tokN"].T + " " + n + " " + a[2].T + ")", Sort: "(Array Int Int)"}
+					st.ghost["ntok"] = Val{T: "(+ " + n + " 1)", Sort: "Int"}
+					var out []Val
+					for _, rt := range resultTypes(fn.Type().(*types.Signature)) {
+						out = append(out, fv.havocVal(st, "bw", rt))
+					}
+					return out, true
+				}
+			}
+		}
+		return nil, false
 	case "fmt.Fprint":
 		// token model: Fprint(w, x) with one integer argument appends a Num token
 		if _, ok := st.ghost["ntok"]; ok && len(e.Args) == 2 {
